@@ -138,7 +138,7 @@ def main():
                                        "checks, Gen_* input/behaviour generation, Trace_* validation of recorded results "
                                        "of the real code"}],
         "checks": checks,
-        "notes": "Known findings: /verif/known_findings.json. Exit 2 = machinery failure. See DESIGN.md. Beyond the listed properties: ./check X01 (rnapolis.unifier; specs Unifier/MC_Unifier/Trace_Unifier) , ./check X02 (annotator CLI end to end; specs Pipeline/Trace_Pipeline) , ./check X03 (splitter CLI protocol; specs Splitter/Trace_Splitter) and ./check X04 (metareader; specs Metareader/Trace_Metareader); evidence in extras/evidence; DESIGN 11.5 - not claimed here.",
+        "notes": "Known findings: /verif/known_findings.json. Exit 2 = machinery failure. See DESIGN.md. Beyond the listed properties: ./check X01 (rnapolis.unifier; specs Unifier/MC_Unifier/Trace_Unifier) , ./check X02 (annotator CLI end to end; specs Pipeline/Trace_Pipeline) , ./check X03 (splitter CLI protocol; specs Splitter/Trace_Splitter) , ./check X04 (metareader; specs Metareader/Trace_Metareader) and ./check X05 (rfam_folder lock protocol; specs RfamLock/Trace_RfamLock; found and fixed a lock leak); evidence in extras/evidence; DESIGN 11.5 - not claimed here.",
         "not_applicable": na,
     }
     with open(os.path.join(HERE, "MANIFEST.json"), "w") as f:
